@@ -2,7 +2,7 @@
    Model: UV.C18.Model.script_run (cmds/script.c) over the reader model of C06. *)
 From Coq Require Import NArith List Bool.
 Import ListNotations.
-Require Import UV.C06.Model UV.C06.MergeProofs UV.C06.Proofs UV.C18.Model UV.C18.Proofs UV.C18.Filter UV.C18.FilterProofs UV.C18.MoreProofs.
+Require Import UV.C06.Model UV.C06.MergeProofs UV.C06.Proofs UV.C18.Model UV.C18.Proofs UV.C18.Filter UV.C18.FilterProofs UV.C18.MoreProofs UV.C18.ArgsProofs.
 Require UV.Mcount.Model UV.Mcount.Forest UV.Mcount.ScriptCb.
 Local Open Scope N_scope.
 
@@ -17,7 +17,7 @@ Proof. exact script_same_calls. Qed.
 Print Assumptions C18_same_calls.
 
 (* against the default replay view (leaves folded): same calls, depths and durations *)
-Theorem C18_matches_default_replay : forall forks sel tasks,
+Theorem C18_matches_default_replay : forall forks sel tasks, no_longjmp_tasks tasks = true ->
   flat_map cb_core (script_run forks [] sel tasks) =
   map core_of (events_of (fst (replay_raw (mkcfg true forks) sel tasks))).
 Proof. exact script_matches_default_replay. Qed.
@@ -123,3 +123,13 @@ Theorem C18_replay_time_paired : forall forks sel tasks i d f t,
   paired [] (filter (of_cb_task i) (script_run forks [] sel tasks)) = true.
 Proof. exact script_replay_time_paired. Qed.
 Print Assumptions C18_replay_time_paired.
+
+(* "with matching ... arguments and return value": the model carries no payloads (both views decode the record the
+   shared reader just read, C18_same_calls; the decoding is C09's theorem).  The comparison of what a Python / Lua
+   script received with what replay prints is made on the real code by the checker ok_script_args, which accepts
+   exactly: begin, the replay-side list position by position (task, depth, time, duration code, text token, name), end *)
+Theorem C18_args_checker_exact : forall script_cbs replay_cbs,
+  ok_script_args script_cbs replay_cbs = true <->
+  exists inner, script_cbs = CBegin :: inner ++ [CEnd] /\ forallb inner_ok inner = true /\ map fmt_cb inner = replay_cbs.
+Proof. exact args_checker_exact. Qed.
+Print Assumptions C18_args_checker_exact.
